@@ -24,7 +24,8 @@ MCShape ==
    u_udp_odd  |-> Ip("ma", "mb", FALSE, 0, 0, 0, 0, "udp", 0, 1000, 2000, "p9"),
    u_icmp_odd |-> Ip("ma", "mb", FALSE, 0, 0, 0, 0, "icmp", 0, 0, 0, "p1"),
    t_cfi      |-> Ip("ma", "mb", TRUE, 100, 5, 1, 0, "udp", 0, 1000, 2000, "p8"),
-   u_frag1    |-> Ip("ma", "mb", FALSE, 0, 0, 0, 0, "udp", 1, 1000, 2000, "p8"),
+   u_frag1    |-> Ip("ma", "mb", FALSE, 0, 0, 0, 0, "udp", 1, 0, 0, "pu1"),
+   t_frag1t   |-> Ip("ma", "mb", TRUE, 100, 5, 0, 0, "tcp", 1, 0, 0, "pt1"),
    u_frag2    |-> Ip("ma", "mb", FALSE, 0, 0, 0, 0, "udp", 2, 0, 0, "p8"),
    u_arp      |-> NonIp("bc", "mb", FALSE, 0, 0, "arp", "p0"),
    t_arp      |-> NonIp("bc", "mb", TRUE, 100, 5, "arp", "p0"),
@@ -104,7 +105,7 @@ C_OutLists == {<<OFL>>, <<OALL>>, <<O1>>, <<OIN>>, <<OTAB>>}
 C_Shapes == {"u_udp", "bpdu"}
 C_BadOps == {[mask |-> Bits, conf |-> {"PORT_DOWN", "NO_FLOOD", "NO_RECV_STP"}]}
 \* quick: all 64 flag sets on port 1
-CQ_ModOps == [p \in {1} |-> BitOps(Bits)]
+CQ_ModOps == [p \in {1} |-> BitOps(Bits) \cup {[mask |-> {"NO_FWD", "PORT_DOWN"}, conf |-> {"NO_FWD", "NO_FLOOD"}]}]
 \* thorough: x the 8 sets over {PORT_DOWN, NO_FLOOD, NO_FWD} on port 2
 CT_ModOps == [p \in {1, 2} |-> IF p = 1 THEN BitOps(Bits) \cup WideOps
                                         ELSE BitOps({"PORT_DOWN", "NO_FLOOD", "NO_FWD"})]
@@ -116,8 +117,8 @@ D_Shapes == {"u_udp", "t_tcp"}
 DQ_Shapes == {"t_tcp"}
 
 \* ---- F: fragments and the OFPC_FRAG_DROP mode
-F_FlowLists == {<<O2>>, <<TPS, NSRC, O2>>}
-F_Shapes == {"u_frag1", "u_frag2", "u_udp", "u_arp"}
+F_FlowLists == {<<O2>>, <<TPS, NSRC, O2>>, <<DST, VID7, OFL, OC>>}
+F_Shapes == {"u_frag1", "t_frag1t", "u_frag2", "u_udp", "u_arp"}
 F_ModOps == [p \in {1} |-> BitOps({"NO_RECV"})]
 
 \* ---- S: simulation (long behaviours); the flow lists come from the check
